@@ -86,6 +86,17 @@ def main():
             continue
         m = json.load(open(mp))
         own = m["property"]
+        # enrich meta.json: what the change is and what it needs in order to manifest (from the author's notes)
+        notes = ""
+        np_ = os.path.join(VERIF, "seeded", name, "notes.md")
+        if os.path.exists(np_):
+            notes = open(np_).read()
+        needs = [l.strip(" -*") for l in notes.splitlines() if re.search(r"(?i)\b(trigger|needs?|only (shows|manifests|triggers|affects)|requires?|manifest)", l)]
+        m["breaks_property"] = own
+        m["change"] = DESC.get(name, "")
+        m["needs_to_manifest"] = " ".join(needs)[:900] if needs else notes[:600]
+        m["author"] = "independent sub-agent, round %d; saw only the property text and a private worktree" % (2 if "-r2" in name else 1)
+        json.dump(m, open(mp, "w"), indent=1)
         det = []
         first = ""
         for r in m.get("ran", []):
